@@ -29,6 +29,7 @@ type Ctx struct {
 	notHelper  map[string]bool
 	fb         foldBounds
 	pwCache    map[*ssa.Parameter]string
+	retAlias   map[*ssa.Function]map[int]bool
 }
 
 // Property describes one property check.
